@@ -4,10 +4,11 @@ NAME="$1"; ID="$2"; TIER="${3:-quick}"
 cd /repo || exit 2
 if [ -n "$(git status --porcelain --untracked-files=no)" ]; then echo "/repo not clean"; exit 2; fi
 git apply --exclude='out/*' /verif/seeded/$NAME/patch.diff || { echo "patch does not apply"; exit 2; }
+cp /verif/evidence/$ID.json /verif/.work/evidence.keep.$ID.json 2>/dev/null
 /verif/vcheck $ID $TIER > /verif/.work/seed.$NAME.$ID.log 2>&1; RC=$?
 git -C /repo checkout -- .
 echo "seed=$NAME check=$ID tier=$TIER exit=$RC $(grep -c '^VIOLATION' /verif/.work/seed.$NAME.$ID.log) violation lines"
 grep '^VIOLATION\|HARNESS' /verif/.work/seed.$NAME.$ID.log | cut -c1-260 | head -4
 # restore evidence written by the mutated run
-git -C /verif checkout -- evidence/$ID.json 2>/dev/null
+[ -f /verif/.work/evidence.keep.$ID.json ] && mv /verif/.work/evidence.keep.$ID.json /verif/evidence/$ID.json
 exit 0
